@@ -256,7 +256,7 @@ def dispatch(args):
     kind = args[2]
     rest = args[:2] + args[3:]
     return {'macro': macro_worker, 'const': const_worker, 'ctext': constant_text_worker,
-            'perr': parse_error_worker, 'c': c_worker}[kind](rest)
+            'perr': parse_error_worker, 'c': c_worker, 'cstr': c_worker}[kind](rest)
 
 
 def c_worker(args):
@@ -284,7 +284,8 @@ def run(chk):
     cases += cc
     chk.bounds = {'#define value text': 'every ASCII string without newline, length <= %d' % N,
                   'constant expressions': 'each binary operator with arbitrary leaves in [-2^64, 2^64] (shift counts <= 100)',
-                  'C parser (typeof on a compiled FFI)': 'every byte string of length <= %d (any bytes), output arrays of 1..8 opcodes, empty declaration context' % (4 if quick else 5),
+                  'C parser (typeof on a compiled FFI)': 'every byte string of length <= %d (any bytes), output arrays of 1..8 opcodes, empty declaration context; '
+                                                         'str arguments of up to %d arbitrary BMP code points through _ffi_type' % (4 if quick else 5, 2 if quick else 3),
                   'Constant.value text': 'every ASCII string of length <= %d that pycparser can lex as a constant token' % (4 if quick else 5),
                   'parse-error conversion': 'any reported line number >= 0, sources of 0..%d lines' % (3 if quick else 6)}
     chk.outside = ['errors raised inside pycparser for texts it cannot lex/parse (converted by convert_pycparser_error, '
